@@ -641,3 +641,59 @@ def r06_11(ctx):
                   f"BrownianTree: the probes' values with {label} differ from their values on a fresh object: the value of an "
                   f"interval depends on what else was asked", "identical answers")
     ctx.floor("R06.11", 3)
+
+
+# ------------------------------------------------------------------------------------------------ R03.11 (Levy areas by replay)
+def _cfg_r03_11(model, tier, cfg):
+    res = []
+    for hname, h in (("fresh object", []), ("an adaptive-looking history", HIST_ADAPTIVE[:6] + HIST_HALF_THEN_STEP))[0 if tier != "quick" else 1:]:
+        triples = [tuple(on_grid(cfg, [tr])[0]) for tr in (TRIPLES[:2] if tier == "quick" else TRIPLES)]
+        queries = on_grid(cfg, list(h))
+        at = len(queries)
+        for i, (s_, u, t) in enumerate(triples):
+            # the parts first: a Levy-area *approximation* is that of the stored pieces the query is cut into -- an interval
+            # that is a node of its own carries its own approximation, which is not the combination of its children's (the
+            # property asks for Chen's relation across stored pieces, and for repeatability)
+            queries += [(s_, u), (u, t), (s_, t)]
+        queries += [(triples[0][0], triples[0][2])]            # asked once more at the very end
+        try:
+            out, me, ses = rp.replay(model, cfg, queries, return_U=True, return_A=True)
+        except SimRaise as e:
+            res.append((False, f"::after {hname}", f"BrownianInterval({cfg.label()}): a query raises {e.exc_name}: {e.message}", ""))
+            continue
+        ans = {}
+        for q, o in zip(queries[at:], out[at:]):
+            ans.setdefault(q, o)
+        # NB no Chen relation *between queries* is demanded of A: a Levy-area approximation is that of the stored pieces a
+        # query is cut into, an interval that is a node of its own carries its own approximation, and two queries over
+        # the same stretch may be cut into different pieces (coarser nodes where they fit).  Chen's relation across the
+        # pieces of one query is R03.2's business (the aggregation loop, symbolically, for 1..5 pieces).
+        for s_, u, t in triples:
+            (W, U, A) = ans[(s_, t)]
+            anti = nf.equal(Rat.lift(A) + nf.transpose(Rat.lift(A)), Rat.const(0))
+            res.append((anti, f"::after {hname}::({s_},{u},{t})::antisymmetric",
+                        f"BrownianInterval({cfg.label()}), after {hname}: A({s_},{t}) + A({s_},{t})^T != 0", "antisymmetric"))
+        again = out[-1]
+        res.append((rp.same(again, ans[(triples[0][0], triples[0][2])]), f"::after {hname}::repeatable",
+                    f"BrownianInterval({cfg.label()}), after {hname}: (W, U, A) over [{triples[0][0]}, {triples[0][2]}] asked again "
+                    f"at the end differs from the first answer", "same (W, U, A) again"))
+    return res
+
+
+def r03_11(ctx):
+    """The Levy-area clauses that speak about more than one query, by replay: a requested Levy-area approximation is
+    antisymmetric whatever pieces it was combined from, and (C05) A is repeatable like W and U, also when the tree has been
+    refined under the interval in the meantime -- Davie and Foster areas, on the real tree, after a history."""
+    rep, model = ctx.rep, ctx.model
+    rep.rule("R03.11", "replay with Davie / Foster Levy areas: every A returned after a history is antisymmetric, and (W, U, A) of an "
+                       "interval is returned unchanged when asked again after the tree was refined underneath it")
+    call = _call_fi(model)
+    rep.analysed(call)
+    if skipped(ctx, "R03.11", call):
+        return
+    cfgs = [rp.Config(levy="foster", cache_size=F(1))]
+    if ctx.tier != "quick" and not light():
+        cfgs += [rp.Config(levy="davie", cache_size=F(0)), rp.Config(levy="foster", dt=F(1, 8)),
+                 rp.Config(levy="davie", tol=F(1, 1000), halfway=True)]
+    _report(ctx, "R03.11", call, per_config(model, ctx.tier, "_cfg_r03_11", cfgs))
+    ctx.floor("R03.11", 3)
